@@ -21,6 +21,16 @@ def gen_history(rng, n):
         c['cfg']['mode'] = rng.choice(['NO', 'PARTIAL-AGGREGATIONS', 'MAXIMAL'])
         c['cfg']['nquads'] = rng.random() < 0.5
         steps.append({'case': c, 'out': rng.choice(OUTS)})
+    if n >= 2 and rng.random() < 0.35:
+        # a run that dies midway (the data file of a later triples map is missing), followed by runs on the same target
+        k = rng.randrange(n - 1)
+        c = mapcase.gen_core_case(rng, hard=False, joins=False)
+        while len(c['sources']) < 2 or len(set(t['src'] for t in c['doc'])) < 2:
+            c = mapcase.gen_core_case(rng, hard=False, joins=False)
+        c['cfg']['mode'] = rng.choice(['PARTIAL-AGGREGATIONS', 'MAXIMAL'])
+        steps[k] = {'case': c, 'out': steps[k]['out'], 'break_source': 1}
+        for j in range(k + 1, n):
+            steps[j]['out'] = steps[k]['out']
     if n >= 2 and rng.random() < 0.6:
         steps[-1]['out'] = steps[0]['out']           # come back to the same target
         if rng.random() < 0.5:
@@ -34,6 +44,11 @@ def gen_history(rng, n):
 
 def step_config(step, wd, k):
     cfg = mapcase.materialise_files(step['case'], wd, name='s%d' % k)
+    if step.get('break_source') is not None:
+        try:
+            os.remove(os.path.join(wd, 's%d_%d.csv' % (k, step['break_source'])))
+        except OSError:
+            pass
     kind, val = step['out']
     extra = []
     if kind in ('file', 'both'):
@@ -77,11 +92,15 @@ def run(ctx, res):
             res.evaluations += 1
             exp = obs['expect']
             if 'exc' in exp:
-                res.count('step:mapping-or-data-error')
+                res.count('step:run-dies' if st.get('break_source') is not None else 'step:mapping-or-data-error')
                 if obs['rc'] == 0:
                     res.violations.append({'key': None, 'sig': 'rc', 'what': 'the library internals raise %s but the command-line run exits 0' % exp.get('exc'), 'replay': {'history': h[:k + 1]}})
-                ok_hist = False
-                break
+                    ok_hist = False
+                    break
+                # a run that died leaves files the model does not follow: continue from what is on disk
+                fs = [[p, lines_of(t)] for p, t in sorted(obs['snapshot'].items())]
+                runs = []
+                continue
             if obs['rc'] != 0:
                 res.violations.append({'key': None, 'sig': 'cli-fails', 'what': 'command-line run fails where the library succeeds: %s' % obs['log'][-300:], 'replay': {'history': h[:k + 1]}})
                 ok_hist = False
